@@ -1411,7 +1411,8 @@ pub fn run(s: &Session) {
     let payload = collect_payload_cases();
     s.note("payload_cases", serde_json::json!(payload.len()));
     s.foreach("payload-refusals", payload, true, |c, obs| dispatch_payload(s, c, obs));
-    s.forall("walks", s.pick(60_000, 1_000_000), walk, |w, obs| dispatch_walk(s, w, obs));
+    // 50 000 (was 60 000): the exhaustive lists above grew by ~2 600 cases; keeps the quick tier at its previous cost
+    s.forall("walks", s.pick(50_000, 1_000_000), walk, |w, obs| dispatch_walk(s, w, obs));
     let decoded = ag::ls_decoded();
     s.note("typed_query_results_decoded", serde_json::json!(decoded));
     if !s.replaying() {
